@@ -133,8 +133,75 @@ func guard(f func()) string {
 // Apply executes one op line against the real plugin.  Choice fields written `?` (or anything, for filter / bind /
 // resync) are replaced by what the implementation was observed to choose; the returned line is the one to hand to the
 // model.  The result has the format of the gxdrv_plugin answers.
+// stabilise looks at the world AT EXECUTION TIME and removes the injected faults of an op whose failing call would be
+// chosen by Go map order (the model fixes one order, the implementation's is not reproducible):
+//   - ConfigurePool deletes the objects outside the new configuration in the order of the store's LIST: a fault on a
+//     delete (call 3 and later of a reload) is kept only if there is exactly one object to delete;
+//   - unbind / resync / Release / Bind loop over the records of ONE key in map order: faults are kept only while no key
+//     (Bind: the pod's key) holds more than one record.
+//
+// The generator already avoids these cases, but a history that is executed again (crash sweep prefixes, shrinking,
+// replays) may take another turn - the IPAM's allocation picks are random - so the guard has to sit here.  The line
+// returned to the model carries the faults actually injected.
+func (w *World) stabilise(f []string) []string {
+	zero := func(idx ...int) {
+		for _, i := range idx {
+			if i < len(f) {
+				f[i] = "0"
+			}
+		}
+	}
+	switch {
+	case f[0] == "reload" && len(f) == 3:
+		if pools, err := ParsePoolsLine(f[1]); err == nil && atoiDef(f[2]) >= 3 && w.storeObjectsOutside(pools) > 1 {
+			zero(2)
+		}
+	case (f[0] == "deliver" || f[0] == "resync" || f[0] == "resyncrec") && len(f) == 4:
+		if (f[2] != "0" || f[3] != "0") && !noMultiKey(w) {
+			zero(2, 3)
+		}
+	case f[0] == "release" && len(f) == 9:
+		if (f[7] != "0" || f[8] != "0") && !noMultiKey(w) {
+			zero(7, 8)
+		}
+	case f[0] == "bind" && (len(f) == 9 || len(f) == 10):
+		if f[7] != "0" || f[8] != "0" {
+			if lp := w.ListerPod(f[1], f[2]); lp != nil {
+				if k, err := util.FormatKey(lp); err == nil && len(w.ownedBy(k.KeyInDB)) > 1 {
+					zero(7, 8)
+				}
+			}
+		}
+	}
+	return f
+}
+
+// crashPointStable: may the process die after `at` external calls of this op and the outcome still be reproducible?
+func (w *World) crashPointStable(f []string, at int) bool {
+	if len(f) == 0 {
+		return true
+	}
+	if !noMultiKey(w) {
+		return false // loops over the records of one key run in map order
+	}
+	switch f[0] {
+	case "reload":
+		// calls: config map, list, then one delete per object outside the new configuration, in LIST order
+		if pools, err := ParsePoolsLine(f[1]); len(f) == 3 && err == nil && at >= 3 && w.storeObjectsOutside(pools) > 1 {
+			return false
+		}
+	case "syncips":
+		return at == 0 // the pods come out of the lister in map order
+	}
+	return true
+}
+
 func (w *World) Apply(line string) (final string, result string) {
 	f := strings.Fields(line)
+	if len(f) > 0 {
+		f = w.stabilise(f)
+		line = strings.Join(f, " ")
+	}
 	final = line
 	w.LastOp = OpInfo{Line: line, PlogBefore: len(w.Prov.Log)}
 	defer func() {
@@ -547,6 +614,9 @@ func (w *World) Apply(line string) (final string, result string) {
 // started on the same apiserver / store (Init, informers in sync).  The returned line is the one for the model:
 // `crash <k> <j> <op line>` with k / j = completed apiserver calls / provider requests.
 func (w *World) ApplyCrash(line string, at int) (final string, result string, crashed bool) {
+	if !w.crashPointStable(strings.Fields(line), at) {
+		at = 1 << 20 // not a reproducible crash point: the op runs to its end
+	}
 	w.Bomb.Arm(at)
 	pn := w.Prov.N
 	fl, res := w.Apply(line)
